@@ -152,6 +152,13 @@ type pred func(Row) bool
 func (e *Engine) conjunct(c []Token, filters *[]string) (pred, bool) {
 	c = stripParens(c)
 	txt := textOf(c)
+	// a comparison with the balance an account's latest move left (a scalar sub-select over moves): what it selects
+	// is PostgreSQL's business (balance_from_volumes); every row passes here, and the text of the comparison -- its
+	// operator and its operand -- is kept as the filter of the statement, so that walks can be asked to keep it
+	if len(c) > 4 && c[0].Kind == TOp && c[0].Text == "(" && c[1].Kind == TIdent && c[1].Text == "select" && strings.Contains(txt, "balance_from_volumes") {
+		*filters = append(*filters, txt)
+		return func(Row) bool { return true }, true
+	}
 	last := func(t Token) string {
 		s := lowerIdent(t)
 		return s
